@@ -135,3 +135,188 @@ func cellPaths(t types.Type, prefix string, out *[]string) {
 		*out = append(*out, prefix)
 	}
 }
+
+// ---- memory layout: cell offsets inside objects ----
+//
+// A value is a dense vector of cells (cellsOf). In memory, array and slice elements are placed
+// at a stride that is a power of two, so that element addressing is a shift and the solvers
+// never see a multiplication by 6 or 24.
+
+var offsCache = map[types.Type][]int{}
+var spanCache = map[types.Type]int{}
+
+func pow2ceil(n int) int {
+	p := 1
+	for p < n {
+		p <<= 1
+	}
+	return p
+}
+
+// strideOf: distance between consecutive elements of type t in an array or slice
+func strideOf(t types.Type) int { return pow2ceil(spanOf(t)) }
+
+// spanOf: number of memory offsets an object of type t occupies
+func spanOf(t types.Type) int {
+	if v, ok := spanCache[t]; ok {
+		return v
+	}
+	memOffsOf(t)
+	return spanCache[t]
+}
+
+// memOffsOf: memory offset of every cell of t (same order as cellsOf)
+func memOffsOf(t types.Type) []int {
+	if v, ok := offsCache[t]; ok {
+		return v
+	}
+	var out []int
+	span := 0
+	switch u := t.Underlying().(type) {
+	case *types.Array:
+		st := strideOf(u.Elem())
+		eo := memOffsOf(u.Elem())
+		for i := 0; i < int(u.Len()); i++ {
+			for _, o := range eo {
+				out = append(out, i*st+o)
+			}
+		}
+		span = int(u.Len()) * st
+	case *types.Struct:
+		base := 0
+		for i := 0; i < u.NumFields(); i++ {
+			ft := u.Field(i).Type()
+			al := alignOf(ft)
+			base = (base + al - 1) / al * al
+			for _, o := range memOffsOf(ft) {
+				out = append(out, base+o)
+			}
+			base += spanOf(ft)
+		}
+		al := alignOf(t)
+		span = (base + al - 1) / al * al
+	case *types.Tuple:
+		base := 0
+		for i := 0; i < u.Len(); i++ {
+			ft := u.At(i).Type()
+			for _, o := range memOffsOf(ft) {
+				out = append(out, base+o)
+			}
+			base += spanOf(ft)
+		}
+		span = base
+	default:
+		n := len(cellsOf(t))
+		for i := 0; i < n; i++ {
+			out = append(out, i)
+		}
+		span = n
+	}
+	offsCache[t] = out
+	spanCache[t] = span
+	return out
+}
+
+func fieldMemOffset(st *types.Struct, idx int) int {
+	off := 0
+	for i := 0; i <= idx; i++ {
+		ft := st.Field(i).Type()
+		al := alignOf(ft)
+		off = (off + al - 1) / al * al
+		if i == idx {
+			break
+		}
+		off += spanOf(ft)
+	}
+	return off
+}
+
+var alignCache = map[types.Type]int{}
+
+// alignOf: objects are placed at offsets that are multiples of the largest element stride of the
+// arrays they contain, so that element addresses are concat(index part, field part).
+func alignOf(t types.Type) int {
+	if v, ok := alignCache[t]; ok {
+		return v
+	}
+	a := 1
+	switch u := t.Underlying().(type) {
+	case *types.Array:
+		a = strideOf(u.Elem())
+		if e := alignOf(u.Elem()); e > a {
+			a = e
+		}
+	case *types.Struct:
+		for i := 0; i < u.NumFields(); i++ {
+			if e := alignOf(u.Field(i).Type()); e > a {
+				a = e
+			}
+		}
+	}
+	alignCache[t] = a
+	return a
+}
+
+func log2(n int) int {
+	k := 0
+	for (1 << k) < n {
+		k++
+	}
+	return k
+}
+
+// ---- sub-blocks ----
+//
+// Cells that belong to an array-typed struct field live in block (blk + depth) at their natural
+// offset, where depth counts the array fields on the path from the root object. A pointer into such
+// a field therefore never shares a block with the scalar fields of the enclosing object, and the
+// solver separates them by block identity instead of by offset arithmetic. Root blocks are multiples of 16.
+
+var tagCache = map[types.Type][]int{}
+
+func memTagsOf(t types.Type) []int {
+	if v, ok := tagCache[t]; ok {
+		return v
+	}
+	var out []int
+	switch u := t.Underlying().(type) {
+	case *types.Array:
+		et := memTagsOf(u.Elem())
+		for i := 0; i < int(u.Len()); i++ {
+			out = append(out, et...)
+		}
+	case *types.Struct:
+		for i := 0; i < u.NumFields(); i++ {
+			ft := u.Field(i).Type()
+			ts := memTagsOf(ft)
+			if _, isArr := ft.Underlying().(*types.Array); isArr {
+				for _, x := range ts {
+					out = append(out, x+1)
+				}
+			} else {
+				out = append(out, ts...)
+			}
+		}
+	case *types.Tuple:
+		for i := 0; i < u.Len(); i++ {
+			out = append(out, memTagsOf(u.At(i).Type())...)
+		}
+	default:
+		n := len(cellsOf(t))
+		for i := 0; i < n; i++ {
+			out = append(out, 0)
+		}
+	}
+	tagCache[t] = out
+	return out
+}
+
+func maxTagOf(t types.Type) int {
+	m := 0
+	for _, x := range memTagsOf(t) {
+		if x > m {
+			m = x
+		}
+	}
+	return m
+}
